@@ -10,7 +10,7 @@ THEOREMS = [
     "Typedpy.C18.render_parse_gotFirst", "Typedpy.C18.empty_problem_example",
     "Typedpy.C18.newline_value_keeps_field", "Typedpy.C18.newline_problem_keeps_field",
     "Typedpy.C18.semicolon_value_demoted", "Typedpy.C18.non_ascii_name_keeps_field",
-    "Typedpy.C18.non_word_name_loses_field", "Typedpy.C18.combining_mark_name_loses_field",
+    "Typedpy.C18.non_word_name_loses_field", "Typedpy.C18.combining_mark_name_keeps_field", "Typedpy.C18.pyFieldWord_sound", "Typedpy.C18.non_identifier_class_name_loses_field",
     "Typedpy.C18.deser_foreign_texts_no_field", "Typedpy.C18.transform_examples",
     "Typedpy.C18.readable_raises_iff", "Typedpy.C18.readable_total",
     "Typedpy.C18.readable_total_on_rejections", "Typedpy.C18.readable_raises_example",
@@ -52,6 +52,7 @@ THEOREMS = [
     "Typedpy.C18.points_here",
     "Typedpy.C18.locate_sound",
     "Typedpy.C18.locateZip_sound",
+    "Typedpy.C18.locateAll_sound",
     "Typedpy.C18.sites_point_at_rejections",
     "Typedpy.C18.locate_sound_example",
     "Typedpy.C18.firstBad_min",
@@ -89,6 +90,8 @@ THEOREMS = [
     "Typedpy.C18.deserInvalid_nil_ctorOnly",
     "Typedpy.C18.two_phase_deep_example",
     "Typedpy.C18.fixed_nested_structure_examples",
+    "Typedpy.C18.p1SitesD_tops",
+    "Typedpy.C18.wrapper_path_examples",
 ]
 RULE = ("flat classes (1..5 fields: Integer/Number/Float incl. sign variants, String, Boolean, Enum, and Array/Deque/"
         "Set/Tuple/Map over them) from the type-directed declaration generator; per class a valid argument set, then "
@@ -117,18 +120,22 @@ RULE = ("flat classes (1..5 fields: Integer/Number/Float incl. sign variants, St
         "model exception class / class prefix / path / shape vs str(exception); model parse vs the real ErrorInfo(s). "
         "Oracle: the property statement on the real results with the invalid set computed by Lean `validate`. "
         "Plus a DEEP stream: classes whose fields are collections nested 2..3 levels (every combination of Array/Deque/Tuple/Set/Map, homogeneous "
-        "and positional) over scalars and class references, and top-level class-reference fields; ONE position at a random depth of one or two "
+        "and positional) over scalars and nested structures (class references anywhere; inline StructureReference as direct fields only - inside "
+        "collections an inline structure is deserialized without the aggregated mapper and a null field becomes a value: a region of the `deser` "
+        "model kept out), collections of class references, top-level nested-structure fields, and AnyOf / OneOf / AllOf / NotField over "
+        "scalars and collections (as a field or as the item of a collection); ONE position at a random depth of one or two "
         "fields made invalid (boundary neighbour of the declaration AT that position, payload text, other type); constructor and both "
         "deserialization entry points, fail-fast on/off; compared: the full suffix chain (Lean `locate`), deser accept/reject + exception class "
         "(Lean `deser` on the definition-order class dump), the head every message must begin with (Lean `dHead`); oracle additionally: the path "
         "names the rejected POSITION (wrong-position:suffix-chain). Plus a CLASS-NAME stream: classes used directly and through Partial / "
         "AllFieldsRequired / Extend / Omit / Pick (without / with explicit name), a subclass of a derived class, a local class (__qualname__ != "
         "__name__), and type() classes with unusual names (digits, underscores, dots, non-ASCII letters; combining mark, space, '-', '[' = the "
-        "finding's region); the derived class NAME is the model's (Lean `derivedName`), a non-word character that no user-chosen name contains is "
-        "a separate failure (field-lost:non-word-name:generated-class-name).")
+        "finding's region); whether a derived class's NAME stays in the field group is the model's prediction (Lean `derivedName`; a harmless "
+        "renaming is no alarm), a non-word character that no user-chosen name contains is a separate failure "
+        "(field-lost:non-word-name:generated-class-name).")
 ASSUMPTIONS = [
     "Python's json module is an oracle (Codec): the only law assumed in theorems is loads(dumps(xs)) = xs on lists of strings (explicit hypothesis); the driver instantiates it with Lean.Data.Json",
-    "Python's str.isalnum (what \\w matches) is an oracle (Word): assumed only to contain ASCII letters/digits and not ':'; the harness supplies its answers for the non-ASCII characters of each message",
+    "the field group of errors.py, (?:[\\w.]|[^\\x00-\\x7f\\s])+ since 18c6055, is fully modelled (Lean pyFieldWord: ASCII letters/digits, '_', '.', every non-ASCII character that is not Python white space); theorems stay parametric in a `Word` W of which only the ASCII part and W ':' = false are assumed",
     "value and problem TEXTS are universally quantified parameters of the model (not predicted); the driver reads them off the real message; predicted are exception class, class prefix, path, suffix, shape, order and count",
     "deserialization: which supplied fields its first phase rejects (phaseOneInvalid) and where / under which leading path each rejection is raised (p1Sites: named / inner / foreign) are modelled and corresponded; the scratch `_name` of every inner Field instance is an INPUT of the model, observed by the harness just before the call; value / problem texts after the head are not predicted. The oracle accepts a known finding only at the site kind where the Lean model places it (never by message text, never by probing the code under test)",
     "PYTHONHASHSEED=0; the class dump lists fields in the real signature order",
